@@ -64,6 +64,23 @@ CLAIMED['C01'] = {
     'design_ref': 'DESIGN.md 4 (C01)',
 }
 
+CLAIMED['C18'] = {
+    'text': 'Seeded deterministic simulation of wrap/call histories: a pool of up to 8 wrapper objects built by a seeded stream of wrap operations '
+            '(try_none/nan/zero/false/true/list, try_value(repeat, sleep), try_back, kwargs_support, cache, loop(...), pd2np; re-wrapping with a '
+            'decorator already in the chain, directly and through others) over 1-3 generated functions from the signature grid 0-4 positional x '
+            'defaults x *args x **kwargs, interleaved with calls that split a valid argument set between positional and keyword passing in every '
+            'legal way (permuted, undeclared and unhashable arguments), clear_cache, getargspec, getcallargs and call_with_callargs. Faults: f armed '
+            'to raise deterministically or transiently (retry under try_value with time.sleep behind the simulated clock). Oracles per step: f\'s own '
+            'outcome passed outwards through the documented stack semantics, python\'s binder / inspect as reference, a call ledger (once per '
+            'combination, first result object thereafter), and re-inspection of every OTHER live wrapper after each construction. Evidence over '
+            'sampled histories, not proof.',
+    'note': 'First argument never a container/pandas object. Equal-but-differently-typed arguments (1/1.0/True, list/tuple) are not mixed in one run. '
+            'Evaluation counts are not asserted when f raises; in the retry configuration nothing depends on the number of attempts. python\'s '
+            'inspect module is the trusted reference binder.',
+    'technique': 'deterministic simulation: seeded wrap/call histories over a pool of stateful wrappers with failing and transiently failing functions and a simulated sleep, reference-model and call-ledger oracles',
+    'design_ref': 'DESIGN.md 4 (C18)',
+}
+
 NOT_APPLICABLE = {
     'C02': 'join/xor: result and termination are a function of the two argument tables of one call; no schedule, clock, shared state or fault to simulate.',
     'C03': 'df_sync/df_reindex/presync alignment: pure function of the argument collection and policy; presync wrappers hold no mutable state.',
